@@ -622,7 +622,9 @@ class ExtendedKalmanFilter:
             )
             for member in self.arglist_calibration
         ]
-        for predicted_reading, model in sorted(list(sensor_model_mapping.items())):
+        for predicted_reading, model in sorted(
+            list(sensor_model_mapping.items()), key=lambda item: str(item[0])
+        ):
             expr_before = model
             expr_after = expr_before.subs(subs_set)
             yield f"double {predicted_reading}", expr_after
@@ -631,7 +633,7 @@ class ExtendedKalmanFilter:
         for name, sensor_model_mapping, sensor_noise in self.sensorlist:
             typename = name.title()
             identifier = f"SensorId::{name.upper()}"
-            arglist_sensor = sorted(list(sensor_model_mapping.keys()))
+            arglist_sensor = sorted(list(sensor_model_mapping.keys()), key=str)
             members = "\n".join(
                 "double& %s() { return data(%d, 0); }" % (name, idx)
                 for idx, name in enumerate(arglist_sensor)
@@ -643,7 +645,8 @@ class ExtendedKalmanFilter:
                 )
                 print("Model:")
                 for predicted_reading, model in sorted(
-                    list(sensor_model_mapping.items())
+                    list(sensor_model_mapping.items()),
+                    key=lambda item: str(item[0]),
                 ):
                     print(f"Modeling {predicted_reading} as function of state: {model}")
 
@@ -656,7 +659,7 @@ class ExtendedKalmanFilter:
                 "{}Options{{".format(typename)
                 + ", ".join(
                     str(reading)
-                    for reading in sorted(list(sensor_model_mapping.keys()))
+                    for reading in sorted(list(sensor_model_mapping.keys()), key=str)
                 )
                 + "}"
             )
@@ -677,13 +680,13 @@ class ExtendedKalmanFilter:
                 "data("
                 + ", ".join(
                     f"options.{name}"
-                    for name in sorted(list(sensor_model_mapping.keys()))
+                    for name in sorted(list(sensor_model_mapping.keys()), key=str)
                 )
                 + ")"
             )
             Options_members = "\n".join(
                 f"double {str(symbol)} = 0.0;"
-                for symbol in sorted(list(sensor_model_mapping.keys()))
+                for symbol in sorted(list(sensor_model_mapping.keys()), key=str)
             )
 
             yield ReadingT(
@@ -715,7 +718,7 @@ class ExtendedKalmanFilter:
         ]
 
         for reading_idx, (_predicted_reading, model) in enumerate(
-            sorted(list(sensor_model_mapping.items()))
+            sorted(list(sensor_model_mapping.items()), key=lambda item: str(item[0]))
         ):
             for state_idx, state in enumerate(self.arglist_state):
                 assignment = f"jacobian({reading_idx}, {state_idx})"
